@@ -20,7 +20,7 @@ SPEC = dict(
         dict(name="rocks", pkg=_PKG, test="TestDurabilityRocks", checks=800, shards=5),
         dict(name="l3", pkg=_PKG, test="TestDurabilityL3", checks=2600, shards=3),
         dict(name="l1", pkg=_PKG, test="TestDurabilityL1", checks=1100, shards=2),
-        dict(name="ready_order", pkg=_PKG, test="TestReadyOrder", checks=1500, shards=1),
+        dict(name="ready_order", pkg=_PKG, test="TestReadyOrder", checks=30000, shards=1),
         dict(name="known", pkg=_PKG, test="TestKnown.*", checks=1, shards=1),
     ],
     thorough=[
@@ -28,7 +28,7 @@ SPEC = dict(
         dict(name="rocks", pkg=_PKG, test="TestDurabilityRocks", checks=5500, shards=6),
         dict(name="l3", pkg=_PKG, test="TestDurabilityL3", checks=22000, shards=3),
         dict(name="l1", pkg=_PKG, test="TestDurabilityL1", checks=10000, shards=2),
-        dict(name="ready_order", pkg=_PKG, test="TestReadyOrder", checks=15000, shards=4),
+        dict(name="ready_order", pkg=_PKG, test="TestReadyOrder", checks=500000, shards=4),
         dict(name="known", pkg=_PKG, test="TestKnown.*", checks=1, shards=1),
     ],
 )
